@@ -57,6 +57,9 @@ func genC13(r *simrt.RNG, tier string, variant int) Plan {
 		default:
 			op.Kind = "call"
 		}
+		if op.Kind == "call" && r.Bool(0.15) {
+			op.Kind = "retry" // retry-tagged: a panic is no reason to send the request again
+		}
 		if r.Bool(0.3) {
 			op.Panic = Pick(r, panicKinds)
 			if variant >= 0 {
